@@ -229,7 +229,7 @@ func checkC13(ctx *Ctx, r *Report, tier string) {
 				return
 			}
 			f := c.Call.StaticCallee()
-			if f == nil || f.String() != "encoding/binary.Write" || innermostLoop(save, b) == nil {
+			if f == nil || (f.String() != "encoding/binary.Write" && f.String() != "(*bufio.Writer).Write") || innermostLoop(save, b) == nil {
 				return
 			}
 			n++
@@ -313,6 +313,35 @@ func checkC13(ctx *Ctx, r *Report, tier string) {
 			m := map[string]*Term{}
 			leafTerms("", ag, m)
 			// the triangle variable: the pointer the Normal call receives
+			tv := ""
+			for _, ne := range eventsOf(ev, ".Normal") {
+				tv = valTerm(ne.Args[0]).Key()
+			}
+			return m, tv, true
+		}
+		// the record packed by hand: PutUint32(rec[off:], Float32bits(float32(x))) at byte offset
+		// 12·k + 4·j holds component j of vector k (normal, vertices 0..2)
+		m := map[string]*Term{}
+		for _, e := range ev.Events {
+			if !strings.HasSuffix(e.Callee, ".PutUint32") || len(e.Args) < 3 {
+				continue
+			}
+			sv, okS := e.Args[1].(*SliceV)
+			val, okV := e.Args[2].(*Term)
+			if !okS || !okV || sv.Arr == nil || sv.Lo < 0 || sv.Lo%4 != 0 || sv.Lo >= 48 {
+				continue
+			}
+			if !(val.Op == "call" && val.S == "math.Float32bits" && len(val.Args) == 1) {
+				continue
+			}
+			k, j := sv.Lo/12, (sv.Lo%12)/4
+			key := fmt.Sprintf(".Normal[%d]", j)
+			if k > 0 {
+				key = fmt.Sprintf(".Vertex%d[%d]", k, j)
+			}
+			m[key] = val.Args[0]
+		}
+		if len(m) == 12 {
 			tv := ""
 			for _, ne := range eventsOf(ev, ".Normal") {
 				tv = valTerm(ne.Args[0]).Key()
@@ -454,7 +483,8 @@ func checkSTLOrdering(ctx *Ctx, r *Report, writers map[string]*ssa.Function) {
 		ev := newEval(ctx, "Normal")
 		ev.evalRoot(fn)
 		ws := eventsOf(ev, "encoding/binary.Write")
-		ok := len(ws) >= 2
+		// the records follow: further binary.Write calls, or Write calls of a hand-packed record
+		ok := len(ws) >= 2 || (len(ws) == 1 && len(eventsOf(ev, "bufio.Writer).Write")) >= 1)
 		detail := ""
 		if ok {
 			snap, _ := ws[0].Args[2].(*Tuple)
